@@ -5,6 +5,7 @@
    not been passed before step n, i.e. the n steps are really performed. *)
 From Coq Require Import ZArith QArith Qcanon List Lia Sorting.Sorted.
 From Verif Require Import Num NumFacts Sampling SamplingFacts Engine EngineFacts.
+From Verif Require Import Enums EnumFacts.
 Open Scope Qc_scope.
 
 (* shape: the export loop writes sample n, species s, cell i at n*S*C + s*C + i (the transposition lemma of C01) *)
@@ -70,6 +71,14 @@ Theorem C09_fixed_step_count : forall pol ts I tmax dt N, 0 < dt -> 0 <= tmax ->
                      s_recs s = s_recs (run_fixed dt (S N) (sim_init pol ts I tmax))).
 Proof. exact fixed_step_count. Qed.
 Print Assumptions C09_fixed_step_count.
+
+(* string enumerations (Model/Enums.v, re-read from /repo's Python and C++ source on every run by harness/translate_enums.py) *)
+(* every sampling policy the script accepts is dispatched by both engine initialisers (grid, graph) to a code whose case in
+   SamplingStep calls the sampler that policy names: on_t_sample -> SampleOnTSample, on_iteration -> Sample, on_interval ->
+   SampleOnInterval, no_sampling -> nothing; the engine knows no other policy string *)
+Theorem C09_policy_dispatch : sampling_dispatch_ok = true.
+Proof. exact sampling_dispatch_agrees. Qed.
+Print Assumptions C09_policy_dispatch.
 
 (* non-vacuity: dt = 1/4, requests [0; 0.3; 0.3; 0.35; 1] (duplicate, cluster inside one step), t_max = 1:
    5 steps are performed, records at steps 0, 2 and 4 *)
